@@ -170,6 +170,91 @@ Definition unchecked_paths : list path :=
    PAssignHint (HTy TBool); PDeclMulti (HTy TBool); PDeclTypedefTernary; PStaticAssign; PElem1Global; PArrLitAssign1; PArrLitAssignN; PArrCopy;
    PMemberLit; PIndirect].
 
+(* ------------------------------------------------------------------ Mech: the ORDER of conversion, check and write *)
+(* What a store leaves in the cell when it is REJECTED is observable: `try e` / `checked e` (evaluator/operators/error_handling.cpp
+   evaluate_try_like_expression) turn the exception thrown by check_type_range into an Err(..) value and the program goes on.  The
+   property demands that the cell then still holds its old value.  [store_steps] is, per store path, the order in which the C++ of
+   that path converts, checks and writes (read off the functions named at [path]); [run_steps] executes such a sequence on a cell. *)
+Inductive sstep :=
+| KBoolNorm          (* numeric_value = (numeric_value != 0) ? 1 : 0;                        manager.cpp:1392 *)
+| KClamp             (* a negative value becomes 0 when the target is unsigned               clamp_unsigned_value and its copies *)
+| KCheck             (* check_type_range(declared type, value, name, is_unsigned) - throws   *)
+| KCheckSigned       (* the same call on a target that has lost is_unsigned (statics, global arrays) *)
+| KCheckCopy         (* the check of a clamped COPY of the value, the value itself goes on unclamped (static initialiser) *)
+| KCheckUnlessPtr    (* the check is skipped when the value AS EVALUATED looks like an address (consume_numeric_typed_value) *)
+| KWrite.            (* Variable::value / array_values[i] / struct member := the value as converted so far *)
+
+Definition mech_rejects (t : ty) (v : Z) : bool :=
+  match gen_range (base t) (uns t) with None => false | Some (lo, hi) => gen_reject v lo hi end.
+
+(* v0: the value as evaluated; cur: the value as converted so far; cell: what the target holds *)
+Fixpoint run_steps (t : ty) (v0 : Z) (ks : list sstep) (cur cell : Z) : ctl unit * Z :=
+  match ks with
+  | [] => (Val tt, cell)
+  | k :: r =>
+      match k with
+      | KBoolNorm => run_steps t v0 r (bool_norm cur) cell
+      | KClamp => run_steps t v0 r (mech_clamp (uns t) cur) cell
+      | KCheck => if mech_rejects t cur then (Fail ERange, cell) else run_steps t v0 r cur cell
+      | KCheckSigned => if mech_rejects (signed_of t) cur then (Fail ERange, cell) else run_steps t v0 r cur cell
+      | KCheckCopy => if mech_rejects t (mech_clamp (uns t) cur) then (Fail ERange, cell) else run_steps t v0 r cur cell
+      | KCheckUnlessPtr => if looks_like_pointer v0 then run_steps t v0 r cur cell
+                           else if mech_rejects t cur then (Fail ERange, cell) else run_steps t v0 r cur cell
+      | KWrite => run_steps t v0 r cur cur
+      end
+  end.
+
+Definition assign_variable_steps (h : hint) (t : ty) : list sstep :=
+  (match resolved_type h t with TBool => [KBoolNorm] | _ => [] end) ++ [KClamp] ++
+  (match h with HPointer => [] | _ => [KCheck] end) ++ [KWrite].
+
+Definition store_steps (p : path) (t : ty) : list sstep :=
+  match p with
+  (* new_value computed / clamp / check_type_range / only then `var->value = new_value` (incdec.cpp:316-337, :423-441, :512-533;
+     manager.cpp:1395-1428 check then setNumericFields; operations.cpp:314-357; arrays/manager.cpp:1519-1527; structs/assignment.cpp
+     :113-130, :339-350, :659-672; call_impl.cpp:6868-6880; declaration.cpp:2060-2085: the Variable is inserted into the scope last) *)
+  | PDecl | PAssign | PCompound | PArg | PGlobalScalar | PIncDecVar | PReturn | PElemN | PLitN
+  | PDeclCall | PDeclTypedef | PMember
+  | PElem1 | PElem1Compound | PIncDecElem1 | PLit1 => [KClamp; KCheck; KWrite]
+  | PStatic => [KCheckCopy; KWrite]
+  | PGlobalArr | PDeclTypedefTernary | PArrCopy | PIndirect => [KWrite]
+  | PAssignFromElemN | PReturnElemN => [KClamp; KCheckUnlessPtr; KWrite]
+  | PAssignHint h | PDeclMulti h => assign_variable_steps h t
+  | PAssignCall | PConstGlobal => assign_variable_steps HNone t
+  | PMemberLit | PArrLitAssign1 | PArrLitAssignN => [KClamp; KWrite]
+  | PStaticAssign | PElem1Global => [KCheckSigned; KWrite]
+  end.
+
+(* what a read of the cell yields: 1-D elements of plain arrays are re-read through the narrowing read *)
+Definition read_of (p : path) (t : ty) (raw : Z) : Z :=
+  match p with
+  | PElem1 | PElem1Compound | PIncDecElem1 | PLit1 | PGlobalArr | PElem1Global | PArrLitAssign1 => narrow_read t raw
+  | _ => raw
+  end.
+
+(* the store of [v] along [p] into a [t] cell that holds [old]: (outcome, what the cell holds afterwards) *)
+Definition mech_effect (p : path) (t : ty) (old v : Z) : ctl unit * Z := run_steps t v (store_steps p t) v old.
+(* what the property demands: the converted value is written, a rejected store changes nothing *)
+Definition spec_effect (t : ty) (old v : Z) : ctl unit * Z :=
+  match coerce t v with Val w => (Val tt, w) | Fail e => (Fail e, old) | _ => (Fail EUndef, old) end.
+
+(* a sequence of stores into the same cell (the try / checked cells of the matrix): `= v`, `x++` / `x op= d` computed from the
+   stored value, `a[i] op= d` computed from the value as read *)
+Inductive sop := OSet (v : Z) | OAddRaw (d : Z) | OAddRead (d : Z).
+Definition op_value (rd : Z -> Z) (cell : Z) (o : sop) : Z :=
+  match o with OSet v => v | OAddRaw d => cell + d | OAddRead d => rd cell + d end.
+Fixpoint effects (eff : Z -> Z -> ctl unit * Z) (rd : Z -> Z) (cell : Z) (ops : list sop) : list (bool * Z) :=
+  match ops with
+  | [] => []
+  | o :: r => let '(c, cell') := eff cell (op_value rd cell o) in
+              ((match c with Val _ => true | _ => false end), cell') :: effects eff rd cell' r
+  end.
+Definition mech_effects (p : path) (t : ty) := effects (mech_effect p t) (read_of p t).
+Definition spec_effects (t : ty) := effects (spec_effect t) (fun z => z).
+
+(* the shape seeded change C04-4 gave incdec.cpp: `var->value` updated in place, clamped in place, checked afterwards *)
+Definition write_first_steps : list sstep := [KWrite; KClamp; KWrite; KCheck].
+
 (* the documented ranges (docs/spec.md "基本型"): n-bit two's complement / n-bit unsigned *)
 Definition bits_of (b : ity) : option Z :=
   match b with TTiny => Some 8 | TShort => Some 16 | TInt => Some 32 | TLong => Some 64 | TChar => Some 8 | TBool => None end.
